@@ -7,7 +7,7 @@ META = {
     "engine": "math", "level": "exploration", "design_ref": "DESIGN.md §4.1 C03",
     "technique": "ASan+UBSan+assert harness calling computeEigenValues/computeEigenVectors of all 8 solvers on stratified "
                  "tensors; eigenvalues judged against a long-double cyclic Jacobi, eigenvectors by residual / orthonormality / "
-                 "reconstruction recomputed in long double, tolerance = 128 x (double) / 512 x (float) the documented Delta_inf of each solver",
+                 "reconstruction recomputed in long double, tolerance = 1024 x (double) / 512 x (float) the documented Delta_inf of each solver",
     "text": "Every case (2D and 3D, float and double) of 19 named strata - random, diagonal, nearly diagonal, numerically-zero "
             "shear, one/two zero eigenvalues, zero tensor, a*I, exactly repeated pair in a generic frame, nearly repeated with gaps "
             "1e-1..1e-16 (5 bins), pure shear + pressure (J3=0), badly scaled, mixed component scales, extreme scale - goes through "
